@@ -3,3 +3,4 @@
 #![allow(dead_code, unused)]
 pub mod errflow;
 pub mod hashorder;
+pub mod cast;
